@@ -30,9 +30,10 @@ def _promo(name, method, witness_sets, slack_of, gated=False):
                                               P=lambda e: z3.Or(z3.Select(A.P0, e), z3.And(open_, new(e))), enable=open_ if gated else None)
         try:
             paths = t.run(ALGOS[name], name + "." + method, [], self_val=A.obj, setmode=True)
-        except Unsupported:
+        except Unsupported as ex_:
             bounded()
-            raise
+            t.fallback(str(ex_))
+            return
         t.must_fail()
         t.cover("two-candidates", [z3.Select(A.S0, 0), z3.Select(A.S0, 1), A.N >= 2])
         t.no_raise(paths)
@@ -75,9 +76,10 @@ def _useful(name):
         bounded = lambda: unrolled_transition(t, A, ALGOS[name], name + ".useful_updating", "U_is_exactly_members_of_P_that_can_still_cover_a_candidate", U=useful)
         try:
             paths = t.run(ALGOS[name], name + ".useful_updating", [], self_val=A.obj, setmode=True)
-        except Unsupported:
+        except Unsupported as ex_:
             bounded()
-            raise
+            t.fallback(str(ex_))
+            return
         t.must_fail()
         t.no_raise(paths)
 
